@@ -9,7 +9,7 @@ for id in $ids; do
   if ! grep -q "\"property_id\": \"$prop\"" MANIFEST.json; then echo "$id: property $prop not claimed -> not run"; continue; fi
   if ! git -C /repo apply --check /verif/seeded/$id/patch.diff 2>/dev/null; then echo "$id: patch does not apply"; continue; fi
   git -C /repo apply /verif/seeded/$id/patch.diff
-  out=$(bin/check $prop --tier quick --no-evidence 2>&1); rc=$?
+  out=$(${VGO_CHECK:-bin/check} $prop --tier quick --no-evidence 2>&1); rc=$?
   git -C /repo checkout -- . 
   v=$(echo "$out" | grep -c "^VIOLATION")
   echo "$id: property=$prop exit=$rc violations=$v $(echo "$out" | grep "^VIOLATION" | head -2 | sed 's/.*obligation=//' | tr '\n' ';')"
